@@ -145,8 +145,22 @@ func (q *c37Ident) callOn(e ast.Expr, full string) bool {
 	if !ok {
 		return false
 	}
-	id := c37RootIdent(sel.X)
-	return id != nil && q.params[q.info.Uses[id]]
+	return q.rootedAtParam(sel.X, 0)
+}
+
+// rootedAtParam: e is a call-free selector chain on a parameter, or on a local whose only definition is such a chain
+// (`sess := ctx.Session; id := sess.ID()`).
+func (q *c37Ident) rootedAtParam(e ast.Expr, depth int) bool {
+	id := c37RootIdent(e)
+	if id == nil || depth > 4 {
+		return false
+	}
+	o := q.info.Uses[id]
+	if q.params[o] {
+		return true
+	}
+	def := q.uniqueDef(o)
+	return def != nil && q.rootedAtParam(def, depth+1)
 }
 
 // ownPid: e denotes the pid of the query this call is about.
